@@ -28,3 +28,8 @@ pub fn handle_of<R, E: Exfiltrator>(d: &SignalDelivery<R, E>) -> &Handle {
     &d.handle
 }
 pub const MAXSIG: usize = MAX_SIGNUM;
+
+/// Shim word id of the pending flag of `signal` (SignalOnly storage).
+pub fn slot_var<R>(d: &SignalDelivery<R, super::super::exfiltrator::SignalOnly>, signal: usize) -> usize {
+    d.pending.slots[signal].id
+}
